@@ -1021,7 +1021,7 @@ pagesPut(Page *pg, Length count)
  ****************************************************************************/
 
 struct Section {
-	short		pgCount;	/* Number of pages in section. */
+	UShort		pgCount;	/* Number of pages in section. */
 	short		qmLog;		/* base 2 log of size, if integral */
 #ifdef STO_DIVISION_BY_LOOKUP
 	UByte		qmDiv;		/* division table if !qmLog */
